@@ -92,6 +92,11 @@ pub fn c03(tier: &str) -> i32 {
     for s in [1u8, 2] {
         a2.push(Op::Begin(s));
         a2.push(Op::In(s, upd("t", 1, 11 + s as i128)));
+        if s == 1 {
+            // a row inserted AND updated by the same transaction (a version chain whose every version is its own)
+            a2.push(Op::In(s, ins("t", &[(3, 30)])));
+            a2.push(Op::In(s, upd("t", 3, 31)));
+        }
         a2.push(Op::In(s, del("t", 2)));
         a2.push(Op::In(s, sel("t")));
         a2.push(Op::Commit(s));
@@ -154,6 +159,10 @@ pub fn c04(tier: &str) -> i32 {
             alpha.push(Op::In(s, del("t", 1)));
             if !indexed {
                 alpha.push(Op::In(s, upd("t", 2, 20 + s as i128)));
+                if s == 1 {
+                    // update of the row this session inserted itself: a version chain written by one transaction
+                    alpha.push(Op::In(s, upd("t", 3, 39)));
+                }
             }
             alpha.push(Op::Commit(s));
             alpha.push(Op::Rollback(s));
@@ -286,6 +295,10 @@ pub fn c13(tier: &str) -> i32 {
             Op::In(1, ins("t", &[(4, 40)])),
             Op::In(1, del("t", 2)),
             Op::In(1, upd("t", 1, 11)),
+            // a row inserted with a NULL and updated by the same transaction: VACUUM right after the commit has
+            // to walk a kept delta that records "this column used to be NULL"
+            Op::In(1, Stmt::Insert { table: "t".into(), rows: vec![vec![i(5), Val::Null]] }),
+            Op::In(1, upd("t", 5, 51)),
             Op::Commit(1),
             Op::Rollback(1),
             Op::Auto(Stmt::CreateTable(t2_def())),
